@@ -54,3 +54,88 @@ fn c13_swap_keeps_bounds_aligned() {
     assert!(s.kernel.idx[i] == j && s.kernel.idx[j] == i);
     kani::cover!(i != j && bounds[i] != bounds[j]);
 }
+
+// ---------------------------------------------------------------------------------------------
+// Gradient bookkeeping that shrinking relies on (C13: "with or without shrinking ... KKT conditions"):
+//   G_bar[k] (`gradient_fixed`) == sum over variables t sitting at their upper bound of bound_t * Q[t][k], for ALL k < l
+//   after reconstruct_gradient():  gradient[k] == p[k] + sum_t alpha_t * Q[t][k]  for the inactive k >= nactive
+// Kernel witness: arbitrary symmetric table of small integers (exact float arithmetic), so the units hold for
+// every kernel with such entries; alphas, bounds and p are small integers as well.
+struct TableKernel3 { k: Kernel<f32>, q: [[f32; N]; N] }
+impl Permutable<f32> for TableKernel3 {
+    fn swap_indices(&mut self, _i: usize, _j: usize) {}
+    fn distances(&self, idx: usize, length: usize) -> Vec<f32> { let mut v = Vec::new(); let mut j = 0; while j < length { v.push(self.q[idx][j]); j += 1; } v }
+    fn self_distance(&self, idx: usize) -> f32 { self.q[idx][idx] }
+    fn inner(&self) -> &Kernel<f32> { &self.k }
+    fn into_inner(self) -> Kernel<f32> { self.k }
+}
+fn small_int(lo: i8, hi: i8) -> f32 { let v: i8 = kani::any(); kani::assume(v >= lo && v <= hi); v as f32 }
+fn sym_table() -> [[f32; N]; N] {
+    let (a, b, c, d, e, f) = (small_int(1, 3), small_int(1, 3), small_int(1, 3), small_int(-2, 2), small_int(-2, 2), small_int(-2, 2));
+    [[a, d, e], [d, b, f], [e, f, c]]
+}
+fn gbar_expected(s: &SolverState<'_, f32, TableKernel3>, q: &[[f32; N]; N], k: usize) -> f32 {
+    let mut acc = 0.0f32;
+    for t in 0..N { if s.alpha[t].val() >= s.bounds[t] { acc += s.bounds[t] * q[t][k]; } }
+    acc
+}
+
+// @unit class=bounded tier=quick mem=heavy bound="l=3 variables, nactive=2, one SMO step on the pair (0,1), integer-valued kernel/bounds" timeout=900 fns=linfa_svm::solver_smo::SolverState::update,linfa_svm::solver_smo::SolverState::new
+#[kani::proof]
+#[kani::unwind(5)]
+#[kani::stub(alloc::fmt::format, fmt_stub)]
+fn c13_update_maintains_gbar() {
+    let q = sym_table();
+    let bounds = [small_int(1, 2), small_int(1, 2), small_int(1, 2)];
+    // start every variable either at 0 or at its upper bound (both occur in every SMO run)
+    let at_upper: [bool; N] = kani::any();
+    let alpha = [if at_upper[0] { bounds[0] } else { 0.0 }, if at_upper[1] { bounds[1] } else { 0.0 }, if at_upper[2] { bounds[2] } else { 0.0 }];
+    let targets: [bool; N] = kani::any();
+    let p = [small_int(-2, 2), small_int(-2, 2), small_int(-2, 2)];
+    let ds = Array2::zeros((N, 1));
+    let k = Kernel { inner: KernelInner::Dense(Array2::zeros((N, N))), method: KernelMethod::Gaussian(1.0) };
+    let mut s = SolverState::new(alpha.to_vec(), p.to_vec(), targets.to_vec(), ds.view(), TableKernel3 { k, q }, bounds.to_vec(),
+        SolverParams { eps: 0.001, shrinking: true }, false);
+    for kk in 0..N { assert!(s.gradient_fixed[kk] == gbar_expected(&s, &q, kk)); }   // established by new()
+    s.nactive = 2;                                                                      // variable 2 is shrunk
+    let was_upper = (s.alpha[0].val() >= bounds[0], s.alpha[1].val() >= bounds[1]);
+    s.update((0, 1));
+    let is_upper = (s.alpha[0].val() >= bounds[0], s.alpha[1].val() >= bounds[1]);
+    for kk in 0..N { assert!(s.gradient_fixed[kk] == gbar_expected(&s, &q, kk)); }
+    kani::cover!(was_upper.0 != is_upper.0);
+    kani::cover!(was_upper.1 != is_upper.1);
+}
+
+// @unit class=bounded tier=quick mem=heavy bound="l=3 variables, nactive in {1,2}, integer-valued state" timeout=900 fns=linfa_svm::solver_smo::SolverState::reconstruct_gradient
+#[kani::proof]
+#[kani::unwind(5)]
+#[kani::stub(alloc::fmt::format, fmt_stub)]
+fn c13_reconstruct_gradient_is_full_gradient() {
+    let q = sym_table();
+    let bounds = [2.0f32, 2.0, 2.0];
+    let alpha = [small_int(0, 2), small_int(0, 2), small_int(0, 2)];
+    let targets: [bool; N] = kani::any();
+    let p = [small_int(-2, 2), small_int(-2, 2), small_int(-2, 2)];
+    let ds = Array2::zeros((N, 1));
+    let k = Kernel { inner: KernelInner::Dense(Array2::zeros((N, N))), method: KernelMethod::Gaussian(1.0) };
+    let mut s = SolverState::new(alpha.to_vec(), p.to_vec(), targets.to_vec(), ds.view(), TableKernel3 { k, q }, bounds.to_vec(),
+        SolverParams { eps: 0.001, shrinking: true }, false);
+    let na: usize = kani::any();
+    kani::assume(na == 1 || na == 2);
+    // a variable is only ever shrunk while it sits at a bound
+    for t in 0..N { if t >= na { kani::assume(alpha[t] == 0.0 || alpha[t] == bounds[t]); } }
+    s.nactive = na;
+    // the gradient of the inactive part is stale while shrunk: scramble it
+    for t in 0..N { if t >= na { s.gradient[t] = small_int(-3, 3); } }
+    s.reconstruct_gradient();
+    for kk in 0..N {
+        if kk >= na {
+            let mut full = p[kk];
+            for t in 0..N { full += alpha[t] * q[t][kk]; }
+            assert!(s.gradient[kk] == full);
+        }
+    }
+    let nfree = (0..na).filter(|t| alpha[*t] > 0.0 && alpha[*t] < 2.0).count();
+    kani::cover!(nfree * N > 2 * na * (N - na));     // first branch of reconstruct_gradient
+    kani::cover!(nfree * N <= 2 * na * (N - na) && nfree > 0);
+}
